@@ -569,3 +569,24 @@ class P(Prop):
                         groups = [list(g) for g in call["groups"]]
                         del groups[i][j]
                         yield dict(case, calls=calls[:k] + [dict(call, groups=groups)] + calls[k + 1 :])
+
+
+# ---- pipeline-level cases: the whole `get_protein_group_results` for every shipped method file (configuration objects
+# from `methods.parse_method_toml`, as the command line builds them) against the composed Lean model PgFdr.Pipeline.run,
+# with the C02 statement as the oracle: every competition observed in the run (groups / evidence / float scores handed in,
+# ranking that came out; the rescue pass on the SAME strategy object included) must satisfy `check_call` for the strategy the
+# METHOD FILE names — picked_group => the LEADING proteins mark (harness/pipeline_oracles.py:oracle_c02)
+import pipeline_oracles as _po  # noqa: E402
+
+_BaseP = P
+
+
+class P(_po.PipelineMixin2, _BaseP):
+    pipeline_share = 0.05      # ~200 of the 4 000 quick cases
+    pipeline_oracles = ("c02",)
+    rule = _BaseP.rule + (
+        "; 5 % of the cases run the whole inference function (harness/pipeline.py: a shipped method file through "
+        "methods.parse_method_toml, structured peptide lists of harness/gen_pil.py, 30 % preceded by a request of the same "
+        "method with the other pseudo-gene switch) and state C02 on every competition of the run for the strategy the "
+        "method file declares"
+    )
